@@ -684,6 +684,7 @@ fn values() -> Vec<(usize, Vec<u8>, usize)> {
         (1, b"\x80\xff\xa0".to_vec(), 0),     // obs-text (0xA0 must not be taken for a blank)
         (1, b"a\nb".to_vec(), 0),             // bare-LF continuation
         (1, b"a\n b".to_vec(), 1),            // bare-LF continuation with a blank
+        (1, b"a\n\nb".to_vec(), 0),           // two bare LFs in a row
         (0, b":;=,\"~!".to_vec(), 0),         // visible ASCII incl. a colon, no blank after the colon
         (3, b"".to_vec(), 0),                 // blanks only
     ]
@@ -715,7 +716,7 @@ fn spec_lists(fields: Vec<FieldSpec>) -> HeadSpec {
 /// The whole space, simplest first. The position in this list is the rank of a head.
 pub fn space() -> Vec<HeadSpec> {
     let mut v: Vec<HeadSpec> = Vec::new();
-    // menu of 6 x 8 = 48 fields
+    // menu of 6 x 9 = 54 fields
     let mut menu: Vec<FieldSpec> = Vec::new();
     for n in NAMES {
         for (pre, val, post) in values() {
@@ -1341,7 +1342,7 @@ pub fn c04(ctx: &Ctx) -> Report {
         "space",
         json!({
             "status": "codes 100..=999 x version token {HTTP/1.1, HTTP/1.0, ICY} x reason {absent, absent with trailing SP, OK, text with spaces/digits/obs-text}, one field behind the status line",
-            "lists": "every list of length 0..=3 over 6 names (token alphabet, mixed case, digit, all 15 token symbols, one standard name) x 8 values (empty, plain, blanks around + inner SP/HTAB, obs-text, two bare-LF continuations, visible ASCII with ':' and no blank after the colon, blanks only), duplicates and case-variant duplicates included",
+            "lists": "every list of length 0..=3 over 6 names (token alphabet, mixed case, digit, all 15 token symbols, one standard name) x 9 values (empty, plain, blanks around + inner SP/HTAB, obs-text, three bare-LF continuations one of them with two LFs in a row, visible ASCII with ':' and no blank after the colon, blanks only), duplicates and case-variant duplicates included",
             "count": "max_headers in {0,1,2,100} x field lines {m-1, m} accepted and m+1 rejected, distinct names and one repeated name; heads of 0 and 3 fields under limits of 24576, 24577, 30000, 32768, 32769, 10^6 and usize::MAX",
             "te": "every list of length 1..=3 over 12 fields (Transfer-Encoding in two spellings, Content-Length, 8 other hop-by-hop/entity names, X-A) with at most one framing field",
             "size": "one 16000-byte value (with and without bare-LF continuations) between two case-variant fields; 60 field lines of 200 bytes over 20 names",
